@@ -746,12 +746,17 @@ def check_types(
         :return: List of validated function arguments.
         """
 
-        # Check for an '*args'-like argument
-        if len(arguments) > len(named_arguments):
+        # Check for an '*args'-like argument (it may hold a single value)
+        star_args_name = next(
             (
-                star_args_name,
-                star_args_values,
-            ) = named_arguments.popitem()  # *args is the last item
+                name
+                for name, param in sig.parameters.items()
+                if param.kind is inspect.Parameter.VAR_POSITIONAL
+            ),
+            None,
+        )
+        if star_args_name in named_arguments:
+            star_args_values = named_arguments.pop(star_args_name)
 
             star_args_tuple = (
                 _check_arg(star_args_name, arg_value)
